@@ -1,9 +1,10 @@
 import Driver.Util
 import Driver.Store
+import Driver.Match
 open Lean
 
 /-- All command handlers; the first one that knows the command answers. -/
-def handlers : List Driver.Handler := [Driver.Store.handle]
+def handlers : List Driver.Handler := [Driver.Store.handle, Driver.Match.handle]
 
 def dispatch (line : String) : Json :=
   match Json.parse line with
